@@ -174,7 +174,8 @@ def _run_on_tty(cmd, env, cwd, out_tty=True, err_tty=False, in_tty=False, preexe
                  b''.join(chunks['stderr']).decode(errors='replace'))
 
 
-def exec_real(repo, argv, hashseed, rng, scratch, tty=False, optimize=False, streams=None, workdir=None):
+def exec_real(repo, argv, hashseed, rng, scratch, tty=False, optimize=False, streams=None, workdir=None,
+              stdin_data=None):
     """Unpatched run with real clock and real files in a scratch directory.
     With `workdir` the run happens in that (caller-owned) directory tree,
     which also holds its temporary and home directory: what earlier runs
@@ -203,8 +204,11 @@ def exec_real(repo, argv, hashseed, rng, scratch, tty=False, optimize=False, str
                 S.fired('tty_unavailable')      # no pseudo-terminals in this sandbox
                 p = None
         if p is None:
+            kw = dict(input=stdin_data) if stdin_data is not None else dict(stdin=subprocess.DEVNULL)
+            if stdin_data is not None:
+                S.fired('stdin_data')
             p = subprocess.run([PY, '-m', 'mininec.mininec'] + list(argv), capture_output=True,
-                               text=True, env=env, cwd=d, timeout=300, preexec_fn=_affinity_fn(rng))
+                               text=True, env=env, cwd=d, timeout=300, preexec_fn=_affinity_fn(rng), **kw)
         files = {}
         for flag, path in W.out_paths(argv):
             fp = os.path.join(d, path)
